@@ -29,8 +29,10 @@ ASSUMPTIONS = [
     'SQLite files; the router answers allow_migrate / db_for_* from a fixed '
     'table; django_evolution and contenttypes live on both databases',
 ]
-FLOORS = {'quick': {'nontrivial': 10, 'db_runs': 60},
-          'thorough': {'nontrivial': 150, 'db_runs': 900}}
+FLOORS = {'quick': {'nontrivial': 10, 'db_runs': 60,
+                    'sql_evolution_values_checked': 4},
+          'thorough': {'nontrivial': 150, 'db_runs': 900,
+                       'sql_evolution_values_checked': 60}}
 SIZES = {'quick': 24, 'thorough': 300}
 TIMEOUT = {'quick': 170, 'thorough': 1700}
 
